@@ -159,6 +159,15 @@ def gen_cases(tier, seed, n_quick, n_thorough, profile=None, tag='ml'):
             m.insert(r.randrange(len(m) + 1), a)
             m += [b, c]
             g.count('function_overload_not_adjacent')
+        if k % 4 == 1:
+            # two classes with one name in two namespaces whose LAST component is the same (a::detail::X, b::detail::X)
+            nm = g.fresh(set(), G.PLAIN_IDS)
+            virt = r.random() < 0.5
+
+            def leaf(outer):
+                return ('ns', outer, [('ns', 'detail', [('class', None, virt, nm, None, [('ctor', None, nm, ())])])])
+            m = list(m) + [leaf('robot'), leaf('vision')]
+            g.count('same_leaf_namespace_same_class')
         out.append(('gen:%d/%d' % (seed, k), G.text(G.tokens(m))))
         for a, b in g.stats.items():
             stats[a] = stats.get(a, 0) + b
